@@ -77,10 +77,7 @@ theorem rd_body (buf : Nat) (x y p : Int) (addr off len : Nat) (o : List (Int ×
   dsimp only
   rw [pairGet_dtype _ _ (by omega) (by omega)]
   simp only [readCall, cmdRead, Prod.mk.injEq, List.append_cancel_left_eq, List.cons.injEq, and_true, true_and]
-  have e1 : ((addr : Int) + (off : Int)).toNat = addr + off := by omega
-  have e2 : (min (len : Int) (buf : Int)).toNat = min len buf := by omega
-  rw [e1, e2]
-  (repeat' apply And.intro) <;> first | rfl | omega
+  (repeat' apply And.intro) <;> first | rfl | omega | (congr 2 <;> omega)
 
 theorem rd_cond (o : List (Int × Int × Int × Int × Int × Int × Int)) (off len : Nat) :
     PyFun.SCPConnection_read_packets_loop1_cond ((false, none, o, (off : Int), (len : Int)) : RdSt) = decide (0 < len) := by
